@@ -28,6 +28,10 @@ def run(tier):
         if deep or kind in ("trap:eq", "trap:light:all", "trap:light:eq", "trap:falsy"):
             cfgs.append(dict(kind=kind, n=4, cfg=dict(CFG, extras=deep, read=False), hidden=False, d=1 if deep else 0,
                              assertions=(k + 1) % 2, judge="c17", extra=extra))
+    # links to adversarial nodes: a link forwards attribute access to its target whatever the target's truth value is
+    for arch in ("falsy", "len0", "eq", "all"):
+        cfgs.append(dict(kind="linkto:" + arch, n=3 if tier == "quick" else 4, cfg=dict(CFG, extras=False, read=False), hidden=False, d=0,
+                         assertions=0, judge="c17", extra={"kind2": "linkto:named", "traps": True, "exporters": True, "queries_after_ops": True}))
     t, summ = e1run.run_configs(cfgs)
     pool = core.Pool(0)
     try:
